@@ -53,3 +53,23 @@ PROP = {
         "design_ref": "DESIGN.md §8 C06",
     },
 }
+# C06 <-> Subscribe glue (Props/C06Glue.lean, Lemmas/MatchSubscribe.lean): the Match trie model and the Subscribe model are linked
+PROP["modules"] += ["Gnmi.Lemmas.MatchSubscribe", "Gnmi.Props.C06Glue"]
+PROP["theorems"] += ["Gnmi.C06Glue." + t for t in [
+    "regQueries_eq", "regQueries_ne_of_empty_target", "regQueries_ne_of_bad_nil", "regQuery_eq_target_full",
+    "fresh_notification_iff", "offered_iff_trie_paths", "offered_iff_trie", "offered_iff_trie_gnmiUpdate", "offered_count_trie",
+    "offered_ne_trie_of_inner_delete",
+    "walked_leaf_is_streamed", "walked_leaf_reaches_client", "offered_agrees", "offered_iff_agree",
+    "walksOf_of_walked", "wantsOf_eq_offered", "wantsROf_eq_offered", "covers_eq_coversKey",
+    "walks_wants_derived", "subSys_wf", "converges_concrete", "no_missed_change_concrete"]] + [
+    "Gnmi.MatchSub." + t for t in ["completePath_eq", "registered_fresh", "compatible_of_qmatches_append",
+                                   "compatible_of_qmatches_cover", "compatible_iff_agree", "walked_spec",
+                                   "cache_gnmiUpdate_eventOK"]]
+PROP["manifest"]["level_text"] += (
+    " Glue with the Subscribe model (Props/C06Glue.lean): Sub.regQueries of an accepted request = the queries addSubscription registers "
+    "(regQueries_eq); for a fresh client registered through addSubscription into any reachable trie, with any activity of other clients, "
+    "Server.Update of the notification carrying a feed event invokes it (exactly once) iff Sub.offered holds (offered_iff_trie, "
+    "offered_count_trie; offered_iff_trie_gnmiUpdate for every leaf Cache.GnmiUpdate feeds); every leaf returned by the initial walk is "
+    "offered to the subscriber whenever it is later updated or deleted (walked_leaf_is_streamed, walked_leaf_reaches_client) and an offered "
+    "event agrees with a subscribed path on every shared element (offered_agrees); Sys.WF (walks_wants, wants_region, covers_tgt) is derived "
+    "for the Subscribe-LTS instance built from actual requests (subSys_wf).")
